@@ -388,7 +388,7 @@ func parseRule(node *yaml.Node, offsetLine, offsetColumn int, contentLines []str
 			return Rule{
 				Lines: lines,
 				Error: ParseError{
-					Line: entry.part.Line + offsetLine,
+					Line: min(entry.part.Line, len(contentLines)) + offsetLine,
 					Err:  fmt.Errorf("%s value cannot be empty", entry.key),
 				},
 			}, false
